@@ -30,7 +30,7 @@ def _gen_message(rng, idx, limit):
     n = rng.choice([0, 1, 2, 5, 30, 300, limit - 1, limit, limit + 1, limit + 7])
     n = max(0, min(n, 70000))
     if kind == "text":
-        s = "".join(rng.choice(_TXT) for _ in range(n))
+        s = "".join(rng.choices(_TXT, k=n))
         return ("text", s)
     return ("bytes", bytes((idx * 31 + i * 7) % 256 for i in range(n)))
 
@@ -101,7 +101,7 @@ def gen(rng, tier):
         if i % 400 == 399 and carrier == "h11" and not ping_close:
             # far more pings than one read of the server holds (several reads' worth arrive at once), from a client that takes every pong:
             # nothing excuses leaving one of them unanswered
-            for j in range(rng.choice([25000, 40000])):
+            for j in range(rng.choice([25000, 40000]) if tier == "thorough" else 14000):
                 pl = b"" if j % 3 else b"%d" % j
                 frames += ws.frame(ws.OP_PING, pl)
                 pings.append((nmsg + 0.75, pl))
